@@ -662,7 +662,30 @@ theorem fullOnto_charP (P : Src → Prop) : ∀ (cs : Blks) (sh : List Nat), cs.
         · simp at h
     · have hin' : inBox arr pt = false := by simpa using hin
       simp only [hin', Bool.false_eq_true, if_false, false_and, false_or, true_and]
-  | .rcons _ _ _ _, _, _, htl, _, _ => by simp [Blks.writable] at htl
+  | .rcons arr rv c r, sh, hwf, htl, acc, pt => by
+    simp only [Blks.wfAll, Bool.and_eq_true] at hwf
+    simp only [Blks.writable, Bool.and_eq_true] at htl
+    obtain ⟨harr, _, _⟩ := (boxOK_iff _ _ _).1 hwf.1.1.1.2
+    have ih := fullOnto_charP P r sh hwf.2 htl.2 (acc.pasteR arr rv c.fullSrc) pt
+    simp only [Blks.fullOnto, hitP, outside]
+    rw [show (r.fullOnto Src.leaf Src.fill (acc.pasteR arr rv (c.full Src.leaf Src.fill))) =
+      (r.fullOnto Src.leaf Src.fill (acc.pasteR arr rv c.fullSrc)) from rfl, ih]
+    have hp : (acc.pasteR arr rv c.fullSrc).get pt =
+        if inBox arr pt then c.fullSrc.get (boxLoR arr rv pt) else acc.get pt := rfl
+    rw [hp]
+    by_cases hin : inBox arr pt = true
+    · have hout := disjoint_outside r sh arr hwf.2 harr htl.1.2 pt hin
+      simp only [hin, if_true]
+      constructor
+      · rintro (h | ⟨_, h⟩)
+        · exact Or.inl (Or.inr h)
+        · exact Or.inl (Or.inl ⟨trivial, h⟩)
+      · rintro ((⟨_, h⟩ | h) | ⟨⟨h, _⟩, _⟩)
+        · exact Or.inr ⟨hout, h⟩
+        · exact Or.inl h
+        · simp at h
+    · have hin' : inBox arr pt = false := by simpa using hin
+      simp only [hin', Bool.false_eq_true, if_false, false_and, false_or, true_and]
 
 /-! ### the general routing theorem -/
 
@@ -857,7 +880,63 @@ theorem writeOnto_routesG : ∀ (cs : Blks) (sh : List Nat), cs.wfAll sh = true 
     · rintro ⟨idx, h1, (⟨h2, h3⟩ | h2)⟩
       · exact Or.inl ⟨idx, h1, h2, h3⟩
       · exact Or.inr ⟨idx, h1, h2⟩
-  | .rcons _ _ _ _, _, _, htl, _, _, _, _, _, _, _, _, _ => by simp [Blks.writable] at htl
+  | .rcons arr rv c r, sh, h, htl, ts, hts, ha, d, hd, hdl, id, x, v => by
+    simp only [Blks.wfAll, Bool.and_eq_true, decide_eq_true_eq] at h
+    simp only [Blks.writable, Bool.and_eq_true] at htl
+    simp only [Blks.acceptsOnto, Bool.and_eq_true] at ha
+    obtain ⟨⟨⟨⟨hcwf, hbox⟩, hrl⟩, _⟩, hrwf⟩ := h
+    obtain ⟨hal, _, _⟩ := (boxOK_iff _ _ _).1 hbox
+    have htl' := ((normalSub_iff _ _).1 hts).1
+    have ihr := writeOnto_routesG r sh hrwf htl.2 ts hts ha.2 d hd hdl id x v
+    have hfirst : ∀ A0 : List (Nat × List Int × α),
+        (match overlapsR ts arr rv with
+          | none => []
+          | some (csub, dsub) => c.write csub (d.select dsub)) = A0 →
+        ((id, x, v) ∈ A0 ↔
+        ∃ idx : Idx, InR (ts.map NSlice.count) idx ∧ inBox arr (selIdx ts idx) = true ∧
+          Stores (c.fullSrc.get (boxLoR arr rv (selIdx ts idx))) (d.get idx) id x v) := by
+      intro A0 hA
+      cases ho : overlapsR ts arr rv with
+      | none =>
+        rw [ho] at hA
+        simp only at hA
+        subst hA
+        have hs0 := overlapsR_spec ts arr rv (by omega) (by omega)
+        rw [ho] at hs0
+        simp only [List.not_mem_nil, false_iff]
+        rintro ⟨idx, hidx, hin, _⟩
+        rw [block_none_inBox hbox hts hs0 idx hidx] at hin
+        simp at hin
+      | some cp =>
+        obtain ⟨csub, psub⟩ := cp
+        rw [ho] at hA
+        simp only at hA
+        subst hA
+        obtain ⟨hcl, _, _, hax⟩ := block_axesR hbox hrl hts ho
+        obtain ⟨_, hcshl, _⟩ := (boxOK_iff _ _ _).1 hbox
+        have hcn : NormalSub c.fshape csub := by
+          rw [normalSub_iff]
+          refine ⟨by omega, fun i hi => ?_⟩
+          obtain ⟨k0, k1, _, _, _, _, _, e6, _⟩ := hax i (by omega)
+          exact e6
+        have hca : c.accepts csub = true := by
+          have := ha.1
+          rw [ho] at this
+          exact this
+        obtain ⟨hds, hdl'⟩ := block_dataR hbox hrl hts ho d hd hdl
+        have ihc := write_routesG c hcwf htl.1.1 csub hcn hca (d.select psub) hds hdl'
+        rw [ihc id x v]
+        exact block_routesRQ (fun s y => Stores s y id x v) c.fullSrc hbox hrl hts ho (full_shape _ _ c hcwf)
+          (full_local _ _ c hcwf) d hd hdl
+    simp only [Blks.writeOnto, List.mem_append, hitP, overlapsWR_eq sh ts arr rv c.fshape hts hbox hrl, ihr]
+    refine Iff.trans (or_congr (hfirst _ rfl) Iff.rfl) ?_
+    constructor
+    · rintro (⟨idx, h1, h2, h3⟩ | ⟨idx, h1, h2⟩)
+      · exact ⟨idx, h1, Or.inl ⟨h2, h3⟩⟩
+      · exact ⟨idx, h1, Or.inr h2⟩
+    · rintro ⟨idx, h1, (⟨h2, h3⟩ | h2)⟩
+      · exact Or.inl ⟨idx, h1, h2, h3⟩
+      · exact Or.inr ⟨idx, h1, h2⟩
 end
 
 /-- on trees without complex formats the general routing is the routing of `write_routes` -/
@@ -902,5 +981,10 @@ example : (Seg.cplx .MP [] [0, 1] 1 (.leaf 0 [3, 2])).write [⟨2, none, -2⟩] 
      (0, [0, 0], .part 2 (.elem [1])), (0, [0, 1], .part 3 (.elem [1]))] ∧
     ((Seg.cplx .MP [] [0, 1] 1 (.leaf 0 [3, 2])).readSrc [⟨2, none, -2⟩]).toList =
       [.polar (.leaf 0 [2, 0]) (.leaf 0 [2, 1]), .polar (.leaf 0 [0, 0]) (.leaf 0 [0, 1])] := by decide
+
+/-- a chunk written across a forward and a backward block of a mosaic: the backward block receives it mirrored -/
+example : exRev.wf = true ∧ exRev.tiled = true ∧ exRev.writable = true ∧
+    exRev.write [⟨1, some 2, 1⟩, ⟨5, none, -2⟩] (idChunkW [⟨1, some 2, 1⟩, ⟨5, none, -2⟩]) =
+      [(0, [1, 1], .elem [0, 2]), (1, [1, 0], .elem [0, 0]), (1, [1, 2], .elem [0, 1])] := by decide
 
 end Sarpy.Props.C07Seg
